@@ -229,7 +229,24 @@ def model_map_err(ex, path, frame, callee, args, dest_ty):
     return out
 
 
+def model_min_max(ex, path, frame, callee, args, dest_ty):
+    a, b = args[0], args[1]
+    if not (isinstance(a, Leaf) and isinstance(b, Leaf) and a.ty in mirsmt.INT_W):
+        return NotImplemented
+    sg = a.ty in mirsmt.SIGNED
+    lt = "bvslt" if sg else "bvult"
+    if re.search(r"::min(::<.*>)?$", callee):
+        return Leaf(f"(ite ({lt} {a.term} {b.term}) {a.term} {b.term})", a.ty)
+    return Leaf(f"(ite ({lt} {a.term} {b.term}) {b.term} {a.term})", a.ty)
+
+
+def model_slice_len(ex, path, frame, callee, args, dest_ty):
+    return ex.ctx.sym(ex.ctx.fresh("len"), "usize")
+
+
 COMMON_MODELS = {
+    r"(^|::)(min|max)(::<.*>)?$": model_min_max,
+    r"(<impl \[T\]>|slice::<impl \[.*\]>|^core::slice::<impl \[.*\]>)::len$": model_slice_len,
     r"^Result::<.*>::map_err::<": model_map_err,
     r"^Result::<.*>::map::<": model_map_err,
     r"^Option::<.*>::ok_or(_else)?::<": model_map_err,
@@ -722,6 +739,328 @@ def c03_update_stamp(env, ob):
             return ("new_version_not_stamped_with_updater", conj([okc, f"(not (= {xm.term} {newx.term}))"]))
         return ("new_version_not_stamped_with_updater", okc)
     return trace_obligation(env, ob, ctx, res, bad, "TupleHeader::new for the new version does not receive new_xmin")
+
+
+# ---------------------------------------------------------------------------------------------------------------------
+# C20: no allocation out of proportion to the frame that asks for it
+# ---------------------------------------------------------------------------------------------------------------------
+@obligation(id="C20.alloc_bounded[Response::from_bytes]", funcs="Response::from_bytes",
+            bounds="every path of Response::from_bytes (loops unrolled twice); decoded integers are free u32 values",
+            assume="every slice handed to / derived inside from_bytes is at most MAX_MESSAGE_SIZE (16 MiB) long: "
+                   "read_message rejects larger frames",
+            native="c20_alloc_bounded")
+def c20_alloc_bounded(env, ob):
+    ctx, f, args, res = explore(env, "tcp/mod.rs", "from_bytes", sig=r"Result<Response")
+    MAXB = bvconst(16 * 1024 * 1024, 64)
+    lens = [f"(bvule {n} {MAXB})" for n in ctx.decls if n.startswith("|len!")]
+    cands, n_ev = [], 0
+    for path, rv in res:
+        for e in path.events:
+            if callee_is(e, r"::with_capacity$") and isinstance(e["args"][0], Leaf):
+                n_ev += 1
+                x = e["args"][0].term
+                # path condition up to (and including) the whole path: later constraints cannot un-allocate, so only
+                # the prefix matters; using the full pc is weaker (may miss) - use the prefix recorded at event time
+                cands.append((path, conj(e.get("pc_prefix", path.pc) + lens + [f"(bvugt {x} {MAXB})"])))
+    if not cands:
+        return result(ob, "inconclusive", reason="vacuity: no with_capacity call found on any path", paths=len(res))
+    # deduplicate identical queries
+    uniq = sorted({c for _, c in cands})
+    chk = env.check(ctx, uniq)
+    sat = [c for c, r in zip(uniq, chk) if r["verdict"] == "sat"]
+    inc = [r["verdict"] for r in chk if r["verdict"] not in ("sat", "unsat")]
+    kw = dict(paths=len(res), queries=len(uniq), events=n_ev)
+    if sat:
+        return result(ob, "violated", failed=["capacity_taken_from_wire_unbounded"],
+                      cex={"what": "Vec::with_capacity(n) is reachable with n > 16 Mi elements", "query": sat[0][-300:]}, **kw)
+    if inc:
+        return result(ob, "inconclusive", reason=inc[0], **kw)
+    return result(ob, "discharged", **kw)
+
+
+# ---------------------------------------------------------------------------------------------------------------------
+# C05: negated predicates must be the Boolean complement of the plain predicate
+# ---------------------------------------------------------------------------------------------------------------------
+def collect_bool_results(v, out, depth=0):
+    """Leaf bools wrapped as DataType::Bool(Bool(b)) anywhere inside v"""
+    if depth > 12 or v is None:
+        return
+    if isinstance(v, Agg):
+        for vn, c in v.variants.items():
+            if vn == "Bool" and isinstance(c.val, Agg):
+                inner = c.val.fields.get("0")
+                if inner is not None and isinstance(inner.val, Agg):
+                    b = inner.val.fields.get("0")
+                    if b is not None and isinstance(b.val, Leaf) and b.val.ty == "bool":
+                        out.append(b.val)
+            collect_bool_results(c.val, out, depth + 1)
+        seen = set()
+        for k, c in v.fields.items():
+            if id(c) in seen:
+                continue
+            seen.add(id(c))
+            collect_bool_results(c.val, out, depth + 1)
+    elif isinstance(v, Ref):
+        collect_bool_results(v.cell.val, out, depth + 1)
+
+
+def subst(term, sym, val):
+    return term.replace(sym, val)
+
+
+def negation_complement(env, ob, ctx, oks, nsym):
+    """oks: [(pc list, result bool term)] over disjoint paths; nsym: SMT symbol of the `negated` flag.
+    Violation iff for some valuation of the other symbols the result with negated=true equals the result with false."""
+    if not oks:
+        return result(ob, "inconclusive", reason="vacuity: no path yields a Boolean result")
+    if not any(nsym in " ".join(pc) + r for pc, r in oks):
+        return result(ob, "violated", failed=["negated_flag_ignored"], cex={"what": "the `negated` flag does not influence the result"},
+                      paths=len(oks), queries=0)
+
+    def val(nv):
+        return disj([conj([subst(c, nsym, nv) for c in pc] + [subst(r, nsym, nv)]) for pc, r in oks])
+
+    def dom(nv):
+        return disj([conj([subst(c, nsym, nv) for c in pc]) for pc, r in oks])
+    q = conj([dom("true"), dom("false"), f"(= {val('true')} {val('false')})"])
+    wit = conj([dom("true"), dom("false")])
+    r = env.check(ctx, [q, wit])
+    kw = dict(paths=len(oks), queries=2)
+    if r[1]["verdict"] != "sat":
+        return result(ob, "inconclusive", reason="vacuity: " + r[1]["verdict"], **kw)
+    if r[0]["verdict"] == "unsat":
+        return result(ob, "discharged", **kw)
+    if r[0]["verdict"] == "sat":
+        return result(ob, "violated", failed=["negated_result_is_not_complement"],
+                      cex={"what": "for the same operand results the predicate with negated=true returns the same truth value as with negated=false"}, **kw)
+    return result(ob, "inconclusive", reason=r[0]["verdict"], **kw)
+
+
+def eval_arm(env, ob, variant):
+    """explore ExpressionEvaluator::evaluate restricted to one BoundExpression variant"""
+    variants = env.enum_variants("sql/binder/bounds.rs", "BoundExpression")
+    if variant not in variants:
+        raise Unsupported(f"BoundExpression::{variant} not found")
+
+    def mkargs(ctx, f):
+        a = [ctx.sym(n, t) for n, t in f.params]
+        be = a[1].cell.val
+        be.disc = Leaf(bvconst(variants[variant], 64), "isize")
+        return a
+    ctx, f, args, res = explore(env, "runtime/eval.rs", "evaluate", sig=r"ExpressionEvaluator<'_>, _2: &bounds::BoundExpression",
+                                args=mkargs, enums={"BoundExpression": variants}, loop_bound=1,
+                                pure=[r" as Index<usize>>::index$", r"Vec::<.*>::len$", r"HashSet::<.*>::contains"])
+    be = args[1].cell.val
+    return ctx, f, be, res
+
+
+def negated_symbol(be, variant, env):
+    """SMT symbol of the `negated` field of BoundExpression::<variant> (field order read from the source)"""
+    txt = strip_comments(env.read("sql/binder/bounds.rs"))
+    m = re.search(r"enum\s+BoundExpression\s*\{", txt)
+    body = balanced_block(txt, m.end() - 1)
+    for part in mirsmt.split_top(body):
+        part = part.strip()
+        mm = re.match(r"^" + variant + r"\s*\{(.*)\}$", part, re.S)
+        if mm:
+            names = [re.match(r"\s*(\w+)\s*:", x).group(1) for x in mirsmt.split_top(mm.group(1)) if re.match(r"\s*(\w+)\s*:", x)]
+            i = names.index("negated")
+            return be.variant_cell(variant).val.field_cell(str(i), "bool").val.term
+    raise Unsupported("negated field of " + variant)
+
+
+def run_negation(env, ob, variant):
+    ctx, f, be, res = eval_arm(env, ob, variant)
+    nsym = negated_symbol(be, variant, env)
+    oks = []
+    for path, rv in res:
+        if path.cut:
+            continue  # loops are unrolled to the stated bound; longer lists are outside the claim (see bounds)
+        if path.panics or rv is None or not isinstance(rv, Agg):
+            continue
+        bools = []
+        for c in path.heap.values():
+            collect_bool_results(c.val, bools)
+        collect_bool_results(rv, bools)
+        if len(bools) == 1:
+            oks.append((path.pc, bools[0].term))
+    return negation_complement(env, ob, ctx, oks, nsym)
+
+
+NEG_FUNCS = "ExpressionEvaluator::evaluate (one arm), recursive evaluate / comparison / set membership uninterpreted"
+
+
+@obligation(id="C05.negation[IS NULL]", funcs=NEG_FUNCS, native="c05_neg_isnull",
+            bounds="every path of the IsNull arm of ExpressionEvaluator::evaluate; operand result abstract")
+def c05_neg_isnull(env, ob):
+    return run_negation(env, ob, "IsNull")
+
+
+@obligation(id="C05.negation[BETWEEN]", funcs=NEG_FUNCS, native="c05_neg_between",
+            bounds="every path of the Between arm; operand results and their comparisons abstract")
+def c05_neg_between(env, ob):
+    return run_negation(env, ob, "Between")
+
+
+@obligation(id="C05.negation[IN list]", funcs=NEG_FUNCS, native="c05_neg_in",
+            bounds="every path of the InList arm with the list loop unrolled once; membership abstract")
+def c05_neg_inlist(env, ob):
+    return run_negation(env, ob, "InList")
+
+
+@obligation(id="C05.negation[LIKE]", funcs="ExpressionEvaluator::string_like", native="c05_neg_like",
+            bounds="every path of string_like; the matcher's verdict abstract")
+def c05_neg_like(env, ob):
+    ctx, f, args, res = explore(env, "runtime/eval.rs", "string_like")
+    pi = [i for i, (pn, pt) in enumerate(f.params) if f.debug.get("negated") == pn]
+    if not pi or not isinstance(args[pi[0]], Leaf):
+        raise Unsupported("parameter `negated` of string_like")
+    nsym = args[pi[0]].term
+    oks = []
+    for path, rv in res:
+        if path.cut:
+            return result(ob, "inconclusive", reason="path cut: " + path.cut)
+        if path.panics or rv is None or not isinstance(rv, Agg):
+            continue
+        bools = []
+        collect_bool_results(rv, bools)
+        if len(bools) == 1:
+            oks.append((path.pc, bools[0].term))
+    return negation_complement(env, ob, ctx, oks, nsym)
+
+
+# ---------------------------------------------------------------------------------------------------------------------
+# C05: operator precedence of the Pratt parser (constants and the loop condition are extracted from the real MIR)
+# ---------------------------------------------------------------------------------------------------------------------
+PARSER = "sql/parser/mod.rs"
+
+
+def parser_with_token(env, fn, token, tokens, sig=None, pure=None):
+    def mkargs(ctx, f):
+        a = [ctx.sym(n, t) for n, t in f.params]
+        p = a[0].cell.val
+        names = env.struct_fields(PARSER, "Parser")
+        tk = p.field_cell(str(names.index("current_token")), "sql::parser::lexer::Token").val
+        tk.disc = Leaf(bvconst(tokens[token], 64), "isize")
+        return a
+    return explore(env, PARSER, fn, sig=sig, args=mkargs, enums={"Token": tokens}, loop_bound=1, pure=pure)
+
+
+def const_u8(v):
+    if isinstance(v, Leaf):
+        c = mirsmt.const_of(v.term)
+        if c is not None:
+            return int(c)
+    return None
+
+
+@obligation(id="C05.precedence", funcs="Parser::infix_binding_power,Parser::parse_prefix,Parser::parse_expr_bp",
+            bounds="binding powers of every infix token and of the prefix operators NOT / unary minus as constants "
+                   "extracted from the MIR; the continue/break condition of the Pratt loop as an SMT term; a model of Pratt "
+                   "parsing (not an execution of the parser) states which operator may be absorbed by which operand",
+            native="c05_not_precedence")
+def c05_precedence(env, ob):
+    tokens = env.enum_variants("sql/parser/lexer.rs", "Token")
+    need = ["Or", "And", "Eq", "Lt", "Plus", "Minus", "Star", "Not"]
+    for t in need:
+        if t not in tokens:
+            raise Unsupported("Token::" + t)
+    # 1. infix binding powers
+    T = {}
+    for t in ["Or", "And", "Eq", "Lt", "Plus", "Minus", "Star"]:
+        ctx, f, args, res = parser_with_token(env, "infix_binding_power", t, tokens)
+        vals = set()
+        for path, rv in res:
+            if rv is None or not isinstance(rv, Agg):
+                continue
+            d = mirsmt.const_of(rv.get_disc().term)
+            if d == 1:
+                tup = rv.variants["Some"].val.fields["0"].val
+                vals.add((const_u8(tup.fields["0"].val), const_u8(tup.fields["1"].val)))
+            else:
+                vals.add(None)
+        if len(vals) != 1 or None in vals or None in list(vals)[0]:
+            raise Unsupported(f"binding power of Token::{t} is not a single constant pair: {vals}")
+        T[t] = list(vals)[0]
+    # 2. prefix operand powers
+    P = {}
+    for t in ["Not", "Minus"]:
+        ctx, f, args, res = parser_with_token(env, "parse_prefix", t, tokens)
+        vals = set()
+        for path, rv in res:
+            for e in path.events:
+                if callee_is(e, r"Parser::parse_expr_bp$"):
+                    vals.add(const_u8(e["args"][1]))
+        if len(vals) != 1 or None in vals:
+            raise Unsupported(f"operand binding power of prefix {t}: {vals}")
+        P[t] = list(vals)[0]
+    # 3. the loop condition of parse_expr_bp: path condition under which an infix operator with left power l is absorbed
+    ctx = mirsmt.Ctx()
+    f = env.mir.find(PARSER, "parse_expr_bp")
+    lsym, rsym = ctx.declare("l_bp", "u8"), ctx.declare("r_bp", "u8")
+
+    def model_ibp(ex, path, frame, callee, args, dest_ty):
+        o = Agg(ex.ctx, None, dest_ty)
+        o.disc = Leaf(bvconst(1, 64), "isize")
+        tup = Agg(ex.ctx, None, "(u8, u8)")
+        tup.fields["0"] = Cell(lsym)
+        tup.fields["1"] = Cell(rsym)
+        pa = Agg(ex.ctx, None, "Some")
+        pa.fields["0"] = Cell(tup)
+        o.variants["Some"] = Cell(pa)
+        return o
+    mdl = dict(COMMON_MODELS)
+    mdl[r"Parser::infix_binding_power$"] = model_ibp
+    ex = mirsmt.Executor(env.mir, ctx, models=mdl, loop_bound=1)
+    a = [ctx.sym(n, t) for n, t in f.params]
+    minbp = a[1].term
+    res = ex.run(f, a)
+    absorb = []
+    for path, rv in res:
+        infx = [e for e in path.events if callee_is(e, r"Parser::parse_infix$")]
+        if infx:
+            # only the conjuncts that speak about the binding powers form the loop condition; the others are outcomes of
+            # uninterpreted calls made before (parse_prefix succeeded ...)
+            absorb.append(conj([c for c in infx[0]["pc_prefix"] if lsym.term in c]))
+    if not absorb:
+        raise Unsupported("no path of parse_expr_bp reaches parse_infix")
+    C = disj(sorted(set(absorb)))
+
+    def absorbed(l, m):
+        return C.replace(lsym.term, bvconst(l, 8)).replace(minbp, bvconst(m, 8))
+    # 4. the inequalities that encode OR < AND < NOT < comparison < additive < multiplicative < unary sign, left assoc.
+    must_absorb = [("AND inside OR's right operand", T["And"][0], T["Or"][1]),
+                   ("comparison inside AND's right operand", T["Eq"][0], T["And"][1]),
+                   ("comparison inside NOT's operand (NOT a = b is NOT (a = b))", T["Eq"][0], P["Not"]),
+                   ("additive inside comparison's right operand", T["Plus"][0], T["Lt"][1]),
+                   ("multiplicative inside additive's right operand", T["Star"][0], T["Plus"][1])]
+    must_not = [("OR inside AND's right operand", T["Or"][0], T["And"][1]),
+                ("AND inside NOT's operand (NOT a AND b is (NOT a) AND b)", T["And"][0], P["Not"]),
+                ("OR inside NOT's operand", T["Or"][0], P["Not"]),
+                ("AND inside comparison's right operand", T["And"][0], T["Eq"][1]),
+                ("additive inside multiplicative's right operand", T["Plus"][0], T["Star"][1]),
+                ("additive inside unary minus' operand (-a + b is (-a) + b)", T["Plus"][0], P["Minus"]),
+                ("comparison inside unary minus' operand", T["Eq"][0], P["Minus"]),
+                ("left associativity of + / -", T["Minus"][0], T["Plus"][1]),
+                ("left associativity of AND", T["And"][0], T["And"][1]),
+                ("left associativity of OR", T["Or"][0], T["Or"][1])]
+    qs = [f"(not {absorbed(l, m)})" for (_, l, m) in must_absorb] + [absorbed(l, m) for (_, l, m) in must_not]
+    chk = env.check(ctx, qs + [C])
+    bad, inc = [], []
+    for (nm, l, m), r in zip(must_absorb + must_not, chk):
+        if r["verdict"] == "sat":
+            bad.append(nm)
+        elif r["verdict"] != "unsat":
+            inc.append(r["verdict"])
+    kw = dict(paths=len(res), queries=len(qs) + 1, events={"infix": T, "prefix": P})
+    if chk[-1]["verdict"] != "sat":
+        return result(ob, "inconclusive", reason="vacuity: loop condition unsatisfiable", **kw)
+    if bad:
+        msgs = ["precedence:" + b.split(" (")[0].replace(" ", "_").replace("'", "") for b in bad]
+        return result(ob, "violated", failed=sorted(msgs), cex={"what": bad, "infix": T, "prefix": P}, **kw)
+    if inc:
+        return result(ob, "inconclusive", reason=inc[0], **kw)
+    return result(ob, "discharged", **kw)
 
 
 # =====================================================================================================================
